@@ -13,6 +13,36 @@ def tagOf (which : String) : Option Text :=
 
 def decodeBytes (s : String) : Option Bytes := (decodeText s).map (·.map Char.toNat)
 
+def yearFormOf (yform : String) : Option Spec.YearForm :=
+  match yform.splitOn "/" with
+  | ["none"] => some Spec.YearForm.none
+  | ["single", a] => do pure (Spec.YearForm.single (← decodeText a))
+  | ["range", a, s1, s2, b] => do pure (Spec.YearForm.range (← decodeText a) (s1 == "1") (s2 == "1") (← decodeText b))
+  | _ => none
+
+/-- one line of a `c02info` request: kind `L` / `N` (tag line: pre, blanks, v, trail), `M` / `P` (the same inside a frame: the frame's white space in `key`), `C` (notice line: pre, holder,
+    trail, prefix key, year form), `O` (any other line: its text in `pre`) -/
+def infoLineOf (kind : Char) (pre blanks v trail : Text) (key yform : String) : Option Spec.InfoLine :=
+  if kind == 'L' then some (.lic ⟨pre, blanks, v, trail⟩)
+  else if kind == 'N' then some (.con ⟨pre, blanks, v, trail⟩)
+  else if kind == 'O' then some (.other pre)
+  else if kind == 'M' then do pure (.licF ⟨pre, blanks, v, trail⟩ (← decodeText key))     -- framed: white space in `key`
+  else if kind == 'P' then do pure (.conF ⟨pre, blanks, v, trail⟩ (← decodeText key))
+  else if kind == 'C' then do
+    let kv ← Generated.copyrightPrefixes.find? (·.1 == key)
+    let shape ← Spec.prefixShapes.find? (·.1 == kv.2)
+    pure (.cpr shape (← yearFormOf yform) v pre trail)
+  else none
+
+def infoLinesOf : List Char → List Text → List Text → List Text → List Text → List String → List String →
+    Option (List Spec.InfoLine)
+  | [], [], [], [], [], [], [] => some []
+  | k :: ks, p :: ps, b :: bs, v :: vs, t :: ts, key :: keys, y :: ys => do
+      let l ← infoLineOf k p b v t key y
+      let rest ← infoLinesOf ks ps bs vs ts keys ys
+      pure (l :: rest)
+  | _, _, _, _, _, _, _ => none
+
 def stepC02 (fields : List String) : Option String :=
   match fields with
   | ["c02hyp", which, pre, blanks, v, trail, le] => do
@@ -46,6 +76,65 @@ def stepC02 (fields : List String) : Option String :=
         (pres.zip (blanks.zip (vs.zip trails))).map fun (p, b, v, t) => ⟨p, b, v, t⟩
       if ls.length != pres.length || vs.length != pres.length || trails.length != pres.length then none
       else pure (encodeBool (Spec.WFLines Generated.endRe (← tagOf which) ls))
+  | ["c02hyp2", which, pre, blanks, v, trail, le] => do
+      -- do the hypotheses of C02_value_exact (tailSafe instead of noEndSuffixBefore) hold for this line?
+      pure (encodeBool (Spec.WFValueSafe Generated.endRe (← tagOf which) (← decodeText pre) (← decodeText blanks)
+        (← decodeText v) (← decodeText trail) (← decodeText le)))
+  | ["c02linesg", which, kinds, pres, blanks, vs, trails, wss] => do
+      -- do the line-local hypotheses of C02_tag_lines_general hold for every line of this text?  kinds: T = tag line,
+      -- R = framed tag line (white space of the frame in `wss`), F = line without the tag (its text in `pres`).  Answer: hypotheses | the theorem's text | the values it promises
+      let tag ← tagOf which
+      let pres ← decodeList pres
+      let blanks ← decodeList blanks
+      let vs ← decodeList vs
+      let trails ← decodeList trails
+      let wss ← decodeList wss
+      let ks := kinds.toList
+      if pres.length != ks.length || blanks.length != ks.length || vs.length != ks.length || trails.length != ks.length ||
+          wss.length != ks.length then none
+      else
+        let ls : List Spec.TextLine :=
+          (ks.zip (pres.zip (blanks.zip (vs.zip (trails.zip wss))))).map fun (k, p, b, v, t, w) =>
+            if k == 'T' then Spec.TextLine.tagged ⟨p, b, v, t⟩
+            else if k == 'R' then Spec.TextLine.framed ⟨p, b, v, t⟩ w
+            else Spec.TextLine.free p
+        pure (encodeBool (ls.all (·.ok Generated.endRe tag)) ++ "|" ++ encodeText (Spec.textOf tag ls) ++ "|" ++
+          encodeList (ls.filterMap (·.value)))
+  | ["c02info", kinds, pres, blanks, vs, trails, keys, yforms] => do
+      -- do the hypotheses of C02_extract_exact hold for every line of this text?  Answer: hypotheses | the theorem's
+      -- text | what the theorem says is extracted
+      let ls ← infoLinesOf kinds.toList (← decodeList pres) (← decodeList blanks) (← decodeList vs) (← decodeList trails)
+        (keys.splitOn ";") (yforms.splitOn ";")
+      pure (encodeBool (ls.all (·.ok Generated.endRe)) ++ "|" ++ encodeText (Spec.infoTextOf ls) ++ "|" ++
+        encodeList (Spec.plantedInfo ls).lic ++ "|" ++ encodeList (Spec.plantedInfo ls).cpr ++ "|" ++
+        encodeList (Spec.plantedInfo ls).con ++ "|" ++
+        -- the hypothesis `hfit` of C02_file_exact / C02_file_exact_line_endings for the LF, the CRLF and the CR form
+        String.join ([id, Spec.toCRLF, Spec.toCR].map fun f =>
+          encodeBool (decide ((encodeUtf8 (f (Spec.infoTextOf ls))).length ≤ 4096) ||
+            containsSnippet (encodeUtf8 (f (Spec.infoTextOf ls))))))
+  | ["c02blocks", a0, hidden, visible, open_, kinds, pres, blanks, vs, trails, keys, yforms] => do
+      -- do the hypotheses of C02_extract_exact_with_blocks / C02_file_exact_with_blocks hold?  The text is
+      -- a0 S hidden[0] E visible[0] S hidden[1] E visible[1] … (S open_)?; the lines are those of the visible parts glued
+      -- together.  Answer: hypotheses | the theorem's text | what the theorem says is extracted | file hypotheses
+      let a0 ← decodeText a0
+      let hidden ← decodeList hidden
+      let visible ← decodeList visible
+      let o ← match open_.splitOn ":" with
+        | ["none"] => some none
+        | ["some", x] => (decodeText x).map some
+        | _ => none
+      if hidden.length != visible.length then none
+      else
+        let bs := hidden.zip visible
+        let ls ← infoLinesOf kinds.toList (← decodeList pres) (← decodeList blanks) (← decodeList vs) (← decodeList trails)
+          (keys.splitOn ";") (yforms.splitOn ";")
+        let t := Spec.blocksText a0 bs o
+        pure (encodeBool (ls.all (·.ok Generated.endRe) && Spec.chunksOK a0 bs o && Spec.visibleText a0 bs == Spec.infoTextOf ls) ++
+          "|" ++ encodeText t ++ "|" ++
+          encodeList (Spec.plantedInfo ls).lic ++ "|" ++ encodeList (Spec.plantedInfo ls).cpr ++ "|" ++
+          encodeList (Spec.plantedInfo ls).con ++ "|" ++
+          String.join ([id, Spec.toCRLF, Spec.toCR].map fun f =>
+            encodeBool (!t.contains '\r' && (decide ((encodeUtf8 (f t)).length ≤ 4096) || containsSnippet (encodeUtf8 (f t))))))
   | ["decode", bs] => do pure (encodeText (decodedText (← decodeBytes bs)))
   | ["windowlen", bs] => do pure (toString (window (← decodeBytes bs)).length)
   | ["infofile", bs, bad] => do
